@@ -2,7 +2,7 @@ import DeepModel.Driver.GuardRun
 import DeepModel.Model.Plugins
 open Lean Proto GuardRun Plugins
 
-/-- switch: null | "text" | true/false | number;  order: null | number | "unusable" -/
+/-- switch: null | "text" | true/false | number;  order: null | number (int or decimal fraction) | "unusable" -/
 def parseSpec (j : Json) : Except String Spec := do
   let sw : Option PyVal := match j.getObjValD "switch" with
     | .str s => some (.text s)
@@ -11,7 +11,7 @@ def parseSpec (j : Json) : Except String Spec := do
     | _ => none
   let ord : Order := match j.getObjValD "order" with
     | .str _ => .unusable
-    | .num n => .value (some n.mantissa)
+    | .num n => .value (some ⟨n.mantissa, n.exponent⟩)
     | _ => .value none
   pure ⟨← getNat j "id", ← getBool j "import_ok", ← getBool j "ctor_ok", sw, ord⟩
 
